@@ -156,7 +156,7 @@ Proof.
   simpl in Hrun. destruct (step s x) as [m|] eqn:Hs; [|discriminate].
   rewrite (IH m s' (inv_step _ _ _ Hi Hs) Hrun), andb_true_r.
   destruct (match x with Conn _ (WriteHead true) => true | _ => false end) eqn:Ex.
-  - destruct x as [|c k| | | | |]; try discriminate. destruct k as [| | | | | | | |mm| | | |?|?| |]; try discriminate.
+  - destruct x as [|c k| | | | |]; try discriminate. destruct k as [| | | | | | | |mm| | | |?|?| | |]; try discriminate.
     destruct mm; try discriminate.
     apply after_conn_step in Hs as Hs'. destruct Hs' as (cn & p' & Hn & Hc & Hn').
     apply (never_generic after_marked false c (s3_bad (Conn c (WriteHead true))))
@@ -172,7 +172,7 @@ Proof.
       destruct mm; simpl in Hc; inversion Hc; reflexivity.
     + exact Hrun.
   - apply forallb_const_true. intros y. destruct x as [|c k| | | | |]; try reflexivity.
-    destruct k as [| | | | | | | |mm| | | |?|?| |]; try reflexivity. destruct mm; try reflexivity; discriminate.
+    destruct k as [| | | | | | | |mm| | | |?|?| | |]; try reflexivity. destruct mm; try reflexivity; discriminate.
 Qed.
 
 (* ---------------- S2: closing seen before the decision => marked ----- *)
